@@ -79,7 +79,10 @@ def compareRuns (c : Case) (what : String) (eq : Dbl → Dbl → Bool) : Option 
 def checkTwice (c : Case) (what : String) : CaseResult :=
   let (e, n, _) := compareRuns c what (fun x y => x == y)
   let hd := heapDiffers c
-  let st := [("values.compared", n), ("heap.order.differs", if hd then 1 else 0), ("finding.lib-assert", libAsserts c)]
+  let exclMulti := (c.get "ccls").size ≥ 2 && (c.get "pin").any (fun l => l.size ≥ 8 && l[7]! == "1")
+  let st := [("values.compared", n), ("heap.order.differs", if hd then 1 else 0), ("finding.lib-assert", libAsserts c),
+             ("twice.params.cases", if (c.get "param").size > 0 then 1 else 0), ("twice.pin-class.connectors", (c.get "ccls").size),
+             ("twice.exclusive-class.several-connectors", if exclMulti then 1 else 0)]
   match e with
   | some m => { verdict := .specfail m, nontrivial := true, stats := st }
   | none => { verdict := .ok, nontrivial := hd && n > 0, stats := st }
@@ -419,6 +422,8 @@ def checkRouteSymmetryParams (c : Case) (crossStage : Bool) : CaseResult := Id.r
             let p := if pc.isSome then p0.drop 1 else p0
             if p.head? != r.head? || p.getLast? != r.getLast? || bends p != bends r
                 || (orth && isOrth r && manhattanLen p != manhattanLen r) then
+              -- crossing-penalty stage: the search may return a path with a loop which the library then cuts out of the route
+              if crossStage then xDiffers := xDiffers + 1 else
               return { verdict := .diverge s!"route-symmetry-params: the A* vertex path reported through the DebugHandler is not the route ({which} frame); {ctx ()}" }
           if orth then
             if !(isOrth ra) then continue
